@@ -185,11 +185,49 @@ def runSteps (chosen : Bool) (react : React) (fuel : Nat) : T → List J → Opt
                     ("reads", .arr (r.2.map fun (p, nd, ms) => readToJ p nd ms)),
                     ("value", valueToJ out.tree)] :: more)
 
+/-- Requests with a second tree (`"ext"`) and threads: steps `{"scope": "enter"|"leave", "t": n, "v": b}`,
+calls `{"t": n, "in": "ext"?, "recv", "notify", "call"}` (executed by `stepN`: the notification
+switch is the one of the calling thread), and after every call all facts of the addressed tree are read. -/
+def runForest : NState → List J → Option (List J)
+  | _, [] => some []
+  | st, s :: rest =>
+    match s.getStr? "scope" with
+    | some sc => do
+      let t := (s.getNat? "t").getD 0
+      let a ← match sc with
+        | "enter" => some (NAct.enter ((s.getBool? "v").getD true))
+        | "leave" => some NAct.leave
+        | _ => none
+      let r := stepN st (.scope t a)
+      let more ← runForest r.1 rest
+      pure (.obj [("ok", .bool true), ("events", .arr []), ("reads", .arr []), ("value", valueToJ st.tree)] :: more)
+    | none => do
+      let recv ← (s.get? "recv").bind pathOfJ
+      let w := (s.getBool? "notify").getD true
+      let op ← (s.get? "call").bind opOfJ
+      let inExt := s.getStr? "in" == some "ext"
+      let r := stepN st (.call ((s.getNat? "t").getD 0) inExt recv w op)
+      let rd := readEverything r.2.tree
+      let st' : NState := if inExt then { r.1 with ext := rd.1 } else { r.1 with tree := rd.1 }
+      let more ← runForest st' rest
+      pure (.obj [("ok", .bool r.2.ok), ("events", .arr (r.2.events.map eventToJ)),
+                  ("reads", .arr (rd.2.map fun (p, nd, ms) => readToJ p nd ms)),
+                  ("value", valueToJ r.2.tree)] :: more)
+
 def handle (j : J) : J :=
   match j.getStr? "op" with
   | some "run" =>
     match (j.get? "tree").bind treeOfJ, j.getArr? "steps" with
     | some t, some steps =>
+      match j.get? "ext" with
+      | some ej =>
+        match treeOfJ ej with
+        | some e =>
+          match runForest { stacks := fun _ => [], tree := (readEverything t).1, ext := (readEverything e).1 } steps with
+          | some outs => .obj [("steps", .arr outs)]
+          | none => bad "run: forest step"
+        | none => bad "run: ext"
+      | none =>
       -- unless it chooses its reads, the harness reads every derived fact once before the first step
       let chosen := j.getStr? "reads" == some "chosen"
       let t0 := if chosen then t else (readEverything t).1
